@@ -147,7 +147,7 @@ Definition ex_su : expr :=
              ESpread (EArray [ECall (EId 1000 false false) [] 0 false])])
     (EIf (ECall (EId 1000 false false) [] 0 false) (ENum (Fin false 1 0)) (ECall (EId 1000 false false) [] 0 false)).
 Example simplify_unused_ex :
-  simplify_unused (w_unbound Wgood) true ex_su <> UFuel /\ no_bad ex_su /\ flags_ok Wgood ex_su /\
+  simplify_unused (w_unbound Wgood) true ex_su <> UFuel /\ no_bad Wgood ex_su /\ flags_ok Wgood ex_su /\
   eval Wgood [] ex_su = Some ([99; 7; 99; 99], Throw (VStr [101])) /\
   eval_unused Wgood [] (simplify_unused (w_unbound Wgood) true ex_su) = Some ([99; 7; 99; 99], Throw (VStr [101])).
 Proof.
@@ -164,3 +164,32 @@ Example vls_ex :
   values_look_the_same ex_vls (ECall (EId 1000 false false) [EDot (EId 1 false false) [107] 0 false false; ENum (Fin false 0 (-1074))] 0 false) = false /\
   eval Wgood [] ex_vls = Some ([7; 99], Throw (VStr [101])).
 Proof. repeat split; try (vm_compute; reflexivity); cbn; unfold two52; try lia; auto; left; lia. Qed.
+
+From V Require Import C03.TreeProofs11.
+(* mangle_if_equiv_partial / mangle_if_total on real rewrites in the effectful world Wgood:
+     (g(), !b) ? f(g(), 1) : f(x.k, 1)   =>   g(), f(b ? x.k : g(), 1)
+   (comma hoisted, negation flipped, the two calls merged through the recursive call), with the
+   same logged evaluation (call, getter, call); and  a != null ? a : g()  =>  a ?? g() *)
+Definition ex_mi_g : expr := ECall (EId 1000 false false) [] 0 false.
+Definition ex_mi_one : expr := ENum (Fin false 4503599627370496 (-52)).
+Definition ex_mi_t : expr := EBin BComma ex_mi_g (EUn UNot (EId 2 false false) false).
+Definition ex_mi_y : expr := ECall (EId 3 false false) [ex_mi_g; ex_mi_one] 0 false.
+Definition ex_mi_n : expr := ECall (EId 3 false false) [EDot (EId 1 false false) [107] 0 false false; ex_mi_one] 0 false.
+Definition ex_mi_r : expr :=
+  EBin BComma ex_mi_g
+    (ECall (EId 3 false false) [EIf (EId 2 false false) (EDot (EId 1 false false) [107] 0 false false) ex_mi_g; ex_mi_one] 0 false).
+Example mangle_if_equiv_ex :
+  mangle_if (w_unbound Wgood) false true ex_mi_t ex_mi_y ex_mi_n = Some ex_mi_r /\
+  (flags_ok Wgood ex_mi_t /\ flags_ok Wgood ex_mi_y /\ flags_ok Wgood ex_mi_n) /\
+  (vls_ok ex_mi_t /\ vls_ok ex_mi_y /\ vls_ok ex_mi_n) /\ (no_hole_args ex_mi_y /\ no_hole_args ex_mi_n) /\
+  eval Wgood [] (EIf ex_mi_t ex_mi_y ex_mi_n) = Some ([99; 7; 99], Val VUndef) /\
+  eval Wgood [] ex_mi_r = Some ([99; 7; 99], Val VUndef) /\
+  mangle_if (w_unbound Wgood) false true (EBin BLooseNe (EId 1 false false) ENull) (EId 1 false false) ex_mi_g
+    = Some (EBin BNullish (EId 1 false false) ex_mi_g).
+Proof.
+  split; [vm_compute; reflexivity|].
+  split; [cbn; repeat split; intros; try discriminate; exact I|].
+  split; [cbn; unfold two52, two53; repeat split; try (right; lia); exact I|].
+  split; [cbn; repeat split; try discriminate; exact I|].
+  repeat split; vm_compute; reflexivity.
+Qed.
